@@ -143,7 +143,7 @@ class Result:
                 {"mechanism": mechanism, "detail": short(detail, 2000), "case": case}
             )
 
-    def enough(self, n: int = 12) -> bool:
+    def enough(self, n: int = 5) -> bool:
         """True once this shard has recorded so many violations that exploring further only costs time
         (blocked operations are expensive to witness); loops should stop then."""
         return self.counters.get("violations_raw", 0) >= n
